@@ -126,20 +126,26 @@ func (p *processor) process() {
 		}
 
 		p.activeCounter.Inc()
-		p.dischargeStream(st)
+		unlocked := p.dischargeStream(st)
 		p.activeCounter.Dec()
+		if unlocked {
+			// the pipeline is stopping: do not join another stream. An action may still hold a run of
+			// this stream, and it must never be fed the events of a different one.
+			return
+		}
 	}
 }
 
-func (p *processor) dischargeStream(st *stream) {
+// dischargeStream reports whether it was ended by the unlock event of streamer.stop.
+func (p *processor) dischargeStream(st *stream) (unlocked bool) {
 	for {
 		event := st.instantGet()
 		// if event is nil then stream is over, so let's attach to a new stream.
 		if event == nil {
-			return
+			return false
 		}
 		if !p.processSequence(event) {
-			return
+			return true
 		}
 	}
 }
